@@ -368,7 +368,7 @@ class Moment:
         )
 
     def __copy__(self):
-        return type(self)(self.operations)
+        return type(self)(self.operations, tags=self.tags)
 
     def __bool__(self) -> bool:
         return bool(self.operations)
